@@ -198,7 +198,7 @@ def stack_int_call(word, data, dtype):
     except Exception as e:  # noqa
         return ("exc", type(e).__name__), None
     if st.dtype != np.dtype(dtype):
-        return ("exc", "dtype %s" % st.dtype), None
+        return ("float", None), st          # F-C20-b repaired: the aggregate keeps its own dtype
     return [int(st.shape[0])] + [int(v) for v in st.flatten()] + [int(f) for f in fold], st
 
 
@@ -244,6 +244,7 @@ def lp_observe(x, pad):
 
     def fake_lp(ts, si, b, axis=None):
         rec["padded"] = np.array(ts)
+        rec["args"] = (float(si), [float(v) for v in np.asarray(b)])
         return ts
     orig = smooth.ft
     smooth.ft = types.SimpleNamespace(lp=fake_lp)
@@ -252,6 +253,8 @@ def lp_observe(x, pad):
     finally:
         smooth.ft = orig
     padded = rec["padded"]
+    if rec["args"] != (1.0, [0.05, 0.075]):
+        raise ValueError("ft.lp called with si, b = %r (expected 1, fac / 2)" % (rec["args"],))
     lpad = (len(padded) - len(x)) // 2
     return [int(lpad), len(padded)] + [int(v) for v in padded] + [len(out)] + [int(v) for v in out]
 
@@ -412,6 +415,29 @@ def cadzow_oracle(ctx, kind, ncol, nrow, sites, meas, full=None, light=False):
             meas.setdefault("cadzow_noise_ratio_rank1", []).append(round(ratio, 4))
 
 
+def svd_groups_observe(coll, rank):
+    """svd_denoise_npx with the external _svd_denoise replaced by a recording identity; row i of the data
+    holds the number i, so the recorded blocks show which traces were passed, in which order, with which rank"""
+    from ibldsp import voltage
+    nc = len(coll)
+    calls = []
+
+    def fake(datr, rank):
+        calls.append((int(rank), [int(v) for v in datr[:, 0]]))
+        return datr
+    orig = voltage._svd_denoise
+    voltage._svd_denoise = fake
+    try:
+        data = np.tile(np.arange(nc, dtype=float)[:, None], (1, 3))
+        out = voltage.svd_denoise_npx(data, rank=rank or None, collection=None if coll is None else np.array(coll))
+    finally:
+        voltage._svd_denoise = orig
+    res = [len(calls)]
+    for rk, idx in calls:
+        res += [rk, len(idx)] + idx
+    return res + [nc] + [int(v) if v == int(v) else -2 for v in out[:, 0]]
+
+
 def svd_oracle(ctx, meas):
     from ibldsp import voltage
     rng = np.random.default_rng(ctx.rng.randrange(2 ** 31))
@@ -560,10 +586,11 @@ def _run(ctx):
             dt = ["int64", "int32", "int16"][(dist["stack_cases"] // 3) % 3]
             resi, st = stack_int_call(case["word"], case["data"], dt)
             count("stack_int_" + dt)
-            if isinstance(resi, tuple):
+            if isinstance(resi, tuple) and resi[0] == "exc":
                 ctx.fail("stack on %s data: %s" % (dt, resi[1]), dict(desc, dtype=dt), {"kind": "stack_exception"})
             else:
-                add([8, len(case["word"]), case["ns"]] + case["word"] + case["data"], resi, dict(desc, dtype=dt))
+                if not isinstance(resi, tuple):     # integer result: the faithful (truncating) model applies
+                    add([8, len(case["word"]), case["ns"]] + case["word"] + case["data"], resi, dict(desc, dtype=dt))
                 d = np.array(case["data"], dtype=float).reshape(len(case["word"]), -1)
                 labels = sorted(set(case["word"]))
                 exact = np.array([d[[i for i, w in enumerate(case["word"]) if w == g], :].mean(axis=0) for g in labels])
@@ -575,7 +602,7 @@ def _run(ctx):
             st32, _ = voltage.stack(d32, np.array(case["word"], dtype=np.int32))
             ex32 = np.array([d32[[i for i, w in enumerate(case["word"]) if w == g], :].astype(float).mean(axis=0)
                              for g in sorted(set(case["word"]))])
-            if st32.dtype != np.float32 or not np.allclose(st32, ex32, rtol=1e-5, atol=1e-4):
+            if not np.allclose(st32, ex32, rtol=1e-5, atol=1e-4):
                 ctx.fail("stack on float32 traces / int32 labels is not the per-label mean", dict(desc, dtype="float32"),
                          {"kind": "stack_spec"})
         if len(set(case["word"])) > 1 and len(set(case["word"])) < len(case["word"]):
@@ -824,6 +851,26 @@ def _run(ctx):
                      % float(np.median(r)), {"fn": "cadzow.denoise", "measurement": "noise ratio"},
                      {"kind": "cadzow_noise"})
     svd_oracle(ctx, meas)
+    for k in range(200 if T else 60):
+        nc = rng.choice([1, 2, 3, 4, 5, 7, 8, 12, 16, 31])
+        ncoll = rng.choice([1, 1, 2, 3, 4, nc])
+        vals = rng.sample(range(-3, 40), min(ncoll, 40))
+        coll = [rng.choice(vals) for _ in range(nc)]
+        if rng.random() < 0.5:
+            coll.sort()
+        rank = rng.choice([0, 0, 1, 2, nc // 4, nc // 2, nc - 1, nc, nc + 3])     # 0 = None: default nc // 4
+        desc = {"fn": "svd_denoise_npx(groups)", "collection": coll, "rank": rank or None}
+        try:
+            obs = svd_groups_observe(coll, rank)
+        except Exception as e:  # noqa
+            ctx.fail("svd_denoise_npx raised %r" % (e,), desc, {"kind": "svd_exception"})
+            continue
+        count("svd_group_cases")
+        if obs[-nc:] != list(range(nc)):
+            ctx.fail("svd_denoise_npx does not write every trace back exactly once", desc, {"kind": "svd_scatter"})
+        add([9, nc, rank] + coll, obs, desc)
+        if len(set(coll)) > 1:
+            nontrivial.add(("svd", tuple(coll), rank))
     if meas.get("svd_noise_ratio"):
         r = meas["svd_noise_ratio"]
         meas["svd_noise_ratio"] = {"n": len(r), "max": max(r), "median": float(np.median(r))}
@@ -927,6 +974,22 @@ def replay(ctx, data):
             mv = np.array([a + b / 2.0 ** 40 for a, b in zip(model[2::2], model[3::2])], dtype=float)
             if not np.allclose(mv, out, rtol=0, atol=1e-6 * (1 + max(abs(v) for v in inp["y"]))):
                 bad.append("model differs")
+    elif fn == "smooth_interpolate_savgol":
+        sig = np.array([np.nan if v is None else v for v in inp["signal"]], dtype=float)
+        try:
+            with np.errstate(all="ignore"):
+                out = smooth.smooth_interpolate_savgol(sig, window=inp["window"], order=inp["order"])
+            print("implementation:", out[:12], "...", out[-6:])
+            if len(out) != len(sig) or not np.all(np.isfinite(out)):
+                bad.append("non-finite values / length changed")
+        except Exception as e:  # noqa
+            bad.append("raised %r" % (e,))
+    elif fn.startswith("svd_denoise_npx(groups)"):
+        obs = svd_groups_observe(inp["collection"], inp["rank"] or 0)
+        model = common.Extracted(PROP).run_many([[9, len(inp["collection"]), inp["rank"] or 0] + inp["collection"]])[0]
+        print("implementation:", obs, "\nmodel:", model)
+        if obs != model:
+            bad.append("model differs")
     elif fn.startswith("cadzow"):
         sites = [tuple(p) for p in inp["sites"]]
         obs = traj_call([p[0] for p in sites], [p[1] for p in sites])
